@@ -157,7 +157,7 @@ mutual
 theorem flattenT_wf : ∀ (t : Ty), t.wf H = true → ∀ x ∈ flattenT t, x.wf H = true
   | .union is, hw, x, hx => by
     simp only [flattenT] at hx
-    exact flattenL_wf is (by simp [Ty.wf] at hw; exact hw.1) x hx
+    exact flattenL_wf is (wf_union hw).1 x hx
   | .never, hw, x, hx | .none, hw, x, hx | .inst _, hw, x, hx | .gen _ _, hw, x, hx | .tuple _, hw, x, hx
   | .callable _ _, hw, x, hx | .lit _ _, hw, x, hx | .typeType _, hw, x, hx => by
     simp [flattenT] at hx; subst hx; exact hw
@@ -203,7 +203,7 @@ theorem simplify_spec (hok : H.Ok) (items : List Ty) (hw : wfL H items = true) :
       exact ⟨x, by simp, S_refl H true x⟩
   · have spec := removeRedundant_spec (isProperSubtype H) (fun x => S_refl H true x) (flattenL items) (by
       intro x hx y hy z hz h1 h2
-      have := trans_all hok _ true true x y z (Nat.le_refl _) (Or.inl ⟨rfl, rfl⟩) (hwf x hx) (hwf y hy) (hwf z hz) h1 h2
+      have := trans_all hok _ true true x y z (Nat.le_refl _) ⟨Or.inl rfl, Or.inl rfl⟩ (hwf x hx) (hwf y hy) (hwf z hz) h1 h2
       simpa [isProperSubtype_eq] using this)
     have hrr : ∀ x ∈ removeRedundant (isProperSubtype H) (flattenL items), x.isUnion = false :=
       fun x hx => hnu x (spec.1 x hx)
@@ -272,6 +272,22 @@ theorem simplify_perm_S (hok : H.Ok) (items items' : List Ty) (hw : wfL H items 
   · subst h
     obtain ⟨y, hy⟩ := List.exists_mem_of_ne_nil _ g2
     exact ⟨y, hy, S_never_atom false (flattenT_not_union _ y hy)⟩
+
+mutual
+theorem flattenT_ne_nil : ∀ (t : Ty), t.wf H = true → flattenT t ≠ []
+  | .union is, hw => by
+    simp only [flattenT]
+    exact flattenL_ne_nil (wf_union hw).1 (wf_union hw).2.2
+  | .never, _ | .none, _ | .inst _, _ | .gen _ _, _ | .tuple _, _
+  | .callable _ _, _ | .lit _ _, _ | .typeType _, _ => by simp [flattenT]
+theorem flattenL_ne_nil : ∀ {ts : List Ty}, wfL H ts = true → ts ≠ [] → flattenL ts ≠ []
+  | [], _, h => absurd rfl h
+  | t :: ts, hw, _ => by
+    simp [wfL] at hw
+    simp only [flattenL]
+    intro h
+    exact flattenT_ne_nil t hw.1 (List.append_eq_nil_iff.1 h).1
+end
 
 theorem wfL_iff {items : List Ty} : wfL H items = true ↔ ∀ t ∈ items, t.wf H = true := by
   induction items with
